@@ -826,3 +826,192 @@ def c09_j(ctx):
                           'chains)'.format(f.name, target), fn=f, node=c)
     if n_sites < 4:
         ctx.undecided('expected >= 4 call sites of the kernels, found {}'.format(n_sites))
+
+
+@obligation('C09-k', 'T1 T11 T7', 'NUTS selection: a candidate replaces the current choice only '
+            'from a valid sub-tree that has eligible leaves, with probability (new eligible) / '
+            '(eligible so far [+ new inside a sub-tree]); the eligible count is advanced after '
+            'the draw that uses it; the state of an iteration defaults to the previous state',
+            floor=6,
+            necessary='a candidate taken from a sub-tree without eligible leaves is a point '
+                      'whose log-target may be -inf or NaN; a count advanced before the draw '
+                      'changes the selection probability (the chain no longer targets the '
+                      'density)')
+def c09_k(ctx):
+    nuts = ctx.fn(M + ':nuts')
+    bt = [g for g in ctx.reachable([nuts], depth=1, may=False)
+          if g.module.name == M and g.name != 'nuts' and
+          any(isinstance(n, ast.Call) and ctx.ex(g).term(n.func) == ('param', 'grad_target')
+              for n in own_nodes(g.node))]
+    if not bt:
+        raise AnchorMissing('NUTS tree helper not found')
+    g = bt[0]
+    exg = ctx.ex(g)
+    # --- inside the tree: params1 = params2 ---
+    rec = [c for c in own_nodes(g.node) if isinstance(c, ast.Call) and
+           isinstance(c.func, ast.Name) and c.func.id == g.name]
+    # names bound from the recursive calls by position: index 5 = eligible count, 4 = candidate
+    firsts, seconds = [], []
+    for c in rec:
+        st = getattr(c, '_parent', None)
+        if isinstance(st, ast.Assign) and isinstance(st.targets[0], ast.Tuple) and \
+                len(st.targets[0].elts) == 11:
+            el = st.targets[0].elts
+            names = [e.id if isinstance(e, ast.Name) else None for e in el]
+            depth_ = sum(1 for a in _ancestors(st, g.node) if isinstance(a, ast.If))
+            firsts.append((st, names, depth_))
+    if firsts:
+        dmin = min(d for (_, _, d) in firsts)
+        seconds = [(st, n) for (st, n, d) in firsts if d > dmin]
+        firsts = [(st, n) for (st, n, d) in firsts if d == dmin]
+    if len(firsts) != 1 or len(seconds) < 1 or \
+            len(set((n[4], n[5]) for (_, n) in seconds)) != 1:
+        ctx.undecided('recursive calls of the tree helper not recognised')
+    cand1, cnt1 = firsts[0][1][4], firsts[0][1][5]
+    cand2, cnt2 = seconds[0][1][4], seconds[0][1][5]
+    acc = [s for s in own_nodes(g.node) if isinstance(s, ast.Assign) and
+           isinstance(s.targets[0], ast.Name) and s.targets[0].id == cand1 and
+           exg.raw(s.value) == ('name', cand2)]
+    ok = len(acc) == 1
+    if ok:
+        gs = _raw_guards(ctx, g, acc[0])
+        has_cnt = any(pol and match_any(t, ('0 < {}'.format(cnt2), '{} > 0'.format(cnt2)))
+                      is not None for (t, pol, _) in gs)
+        draw = any(pol and match_any(t, (
+            '_g.rand() < float({0}) / ({1} + {0})'.format(cnt2, cnt1),
+            '_g.rand() < {0} / ({1} + {0})'.format(cnt2, cnt1),
+            '_g.rand() < float({0}) / ({0} + {1})'.format(cnt2, cnt1),
+            '_g.rand() <= float({0}) / ({1} + {0})'.format(cnt2, cnt1)))
+            is not None for (t, pol, _) in gs)
+        sub = any(pol and t in (('name', 'sub_ok'),) or
+                  (pol and match(t, pattern('sub_ok')) is not None) for (t, pol, _) in gs)
+        ok = has_cnt and draw
+    ctx.check(ok, g, 'sub-tree candidate taken only if it has eligible leaves, with probability '
+              'n2 / (n1 + n2)', 'if n_sub2 > 0: if n_sub2 / (n_sub + n_sub2) > rand(): '
+              'params1 = params2',
+              'the candidate of the second sub-tree replaces the first under another condition '
+              'than `it has eligible leaves and rand() < n2 / (n1 + n2)`', fn=g,
+              node=acc[0] if acc else g.node)
+    adv = [s for s in own_nodes(g.node) if isinstance(s, ast.AugAssign) and
+           isinstance(s.op, ast.Add) and isinstance(s.target, ast.Name) and
+           s.target.id == cnt1 and exg.raw(s.value) == ('name', cnt2)]
+    ok = len(adv) == 1 and bool(acc) and \
+        not cfg_of(g).exists_path(ctx.node(g, adv[0]), ctx.node(g, acc[0])) and \
+        all(_test_node_precedes(ctx, g, acc[0], adv[0]) for _ in (0,))
+    ctx.check(ok, g, 'eligible count advanced after the draw that uses it', 'n_sub += n_sub2 last',
+              'the eligible count of the first sub-tree is advanced before the selection draw '
+              'reads it', fn=g, node=adv[0] if adv else g.node)
+    # --- main loop: samples[ii] = params1 ---
+    exn = ctx.ex(nuts)
+    calls = [c for c in own_nodes(nuts.node) if isinstance(c, ast.Call) and
+             isinstance(c.func, ast.Name) and c.func.id == g.name]
+    tups = []
+    for c in calls:
+        st = getattr(c, '_parent', None)
+        if isinstance(st, ast.Assign) and isinstance(st.targets[0], ast.Tuple) and \
+                len(st.targets[0].elts) == 11:
+            tups.append([e.id if isinstance(e, ast.Name) else None for e in st.targets[0].elts])
+    if len(tups) != 2 or tups[0][4:7] != tups[1][4:7]:
+        ctx.undecided('calls of the tree helper in the main loop not recognised')
+    cand, nsub, subok = tups[0][4], tups[0][5], tups[0][6]
+    sel = [s for s in own_nodes(nuts.node) if isinstance(s, ast.Assign) and
+           isinstance(s.targets[0], ast.Subscript) and exn.raw(s.value) == ('name', cand)]
+    ok = len(sel) == 1
+    tot = None
+    if ok:
+        gs = _raw_guards(ctx, nuts, sel[0])
+        valid = any(pol and match_any(t, ('{} == 1'.format(subok), subok,
+                                          '{} == True'.format(subok))) is not None
+                    for (t, pol, _) in gs)
+        m = None
+        for (t, pol, _) in gs:
+            if pol:
+                m = m or match_any(t, ('_g.rand() < float({}) / _n'.format(nsub),
+                                       '_g.rand() < {} / _n'.format(nsub)))
+        ok = valid and m is not None and m['n'][0] == 'name'
+        if ok:
+            tot = m['n'][1]
+    ctx.check(ok and tot is not None, nuts, 'candidate accepted only from a valid sub-tree, with '
+              'probability n_sub / n_ok', 'if sub_ok == 1: if rand() < n_sub / n_ok: '
+              'samples[ii] = params1',
+              'the state of the iteration is replaced under another condition than `the '
+              'sub-tree is valid and rand() < n_sub / n_ok`', fn=nuts,
+              node=sel[0] if sel else nuts.node)
+    if tot is not None and sel:
+        adv = [s for s in own_nodes(nuts.node) if isinstance(s, ast.AugAssign) and
+               isinstance(s.op, ast.Add) and isinstance(s.target, ast.Name) and
+               s.target.id == tot and exn.raw(s.value) == ('name', nsub)]
+        lo = enclosing_loop(sel[0])
+        hdr = cfg_of(nuts).by_stmt[id(lo)] if lo is not None else None
+        ok = len(adv) == 1 and enclosing_loop(adv[0]) is lo and hdr is not None and \
+            not cfg_of(nuts).exists_path(ctx.node(nuts, adv[0]), ctx.node(nuts, sel[0]),
+                                         avoiding=[hdr]) and \
+            not ctx.guard_groups(nuts, adv[0])[len(ctx.guard_groups(nuts, lo.body[0])):]
+        ctx.check(ok, nuts, 'running eligible total advanced after the draw, for every doubling',
+                  'n_ok += n_sub after the acceptance test, unconditionally',
+                  'the running total of eligible leaves is advanced before the draw that reads '
+                  'it, or not for every doubling', fn=nuts, node=adv[0] if adv else sel[0])
+        init = [s for s in own_nodes(nuts.node) if isinstance(s, ast.Assign) and
+                isinstance(s.targets[0], ast.Name) and s.targets[0].id == tot and
+                exn.raw(s.value) == ('const', 1) and enclosing_loop(s) is enclosing_loop(lo)]
+        ctx.check(len(init) == 1 and cfg_of(nuts).must_precede(
+            [ctx.node(nuts, init[0])], hdr) if init and hdr is not None else False, nuts,
+            'the current state counts as one eligible leaf', 'n_ok = 1 before the doublings',
+            'the running total does not start at 1 (the current state) for every iteration',
+            fn=nuts, node=init[0] if init else sel[0])
+    # default of the iteration: the previous state
+    if sel:
+        tgt = exn.raw(sel[0].targets[0])
+        dfl = [s for s in own_nodes(nuts.node) if isinstance(s, ast.Assign) and
+               isinstance(s.targets[0], ast.Subscript) and exn.raw(s.targets[0]) == tgt and
+               s is not sel[0]]
+        lo = enclosing_loop(sel[0])
+        ok = len(dfl) == 1 and lo is not None and \
+            enclosing_loop(dfl[0]) is enclosing_loop(lo) and \
+            match(exn.term(dfl[0].value), pattern('_s[_i - 1, :]')) is not None and \
+            cfg_of(nuts).must_precede([ctx.node(nuts, dfl[0])], cfg_of(nuts).by_stmt[id(lo)])
+        ctx.check(ok, nuts, 'the iteration\'s state defaults to the previous state',
+                  'samples[ii, :] = samples[ii - 1, :] before the doublings',
+                  'the state of an iteration is not initialised with the previous state before '
+                  'the tree is built (an iteration without an accepted candidate would output '
+                  'an uninitialised row)', fn=nuts, node=dfl[0] if dfl else sel[0])
+
+
+def _raw_guards(ctx, fn, node):
+    """dominating tests over *unexpanded* terms (local names kept), with their equivalents and
+    the atoms implied by a true conjunction"""
+    from .base import guard_equivalents
+    ex = ctx.ex(fn)
+    out = []
+    for (tn, pol) in cfg_of(fn).guards_of(ctx.node(fn, node)):
+        if tn.kind != 'test':
+            continue
+        todo = [(ex.raw(tn.ast), pol)]
+        while todo:
+            (t, p) = todo.pop()
+            for (t2, p2) in guard_equivalents(t, p):
+                if t2[0] == 'unary' and t2[1] == 'not':
+                    continue
+                out.append((t2, p2, tn.ast))
+                if t2[0] == 'bool' and ((t2[1] == 'and' and p2) or (t2[1] == 'or' and not p2)):
+                    for item in t2[2]:
+                        todo.append((item, p2))
+    return out
+
+
+def _ancestors(node, stop):
+    out = []
+    n = getattr(node, '_parent', None)
+    while n is not None and n is not stop:
+        out.append(n)
+        n = getattr(n, '_parent', None)
+    return out
+
+
+def _test_node_precedes(ctx, fn, guarded, later):
+    """every test guarding `guarded` is evaluated before `later` on every path"""
+    cfg = cfg_of(fn)
+    for (tn, pol) in cfg.guards_of(ctx.node(fn, guarded)):
+        if tn.kind == 'test' and cfg.exists_path(ctx.node(fn, later), tn):
+            return False
+    return True
